@@ -18,6 +18,9 @@ FOREIGN = {
     # go- prefix, dots): tools that guess a package name from its path guess these differently from a plain odd directory
     "v2": ("lib/v2", "lib"), "yv3": ("yaml.v3", "yaml"), "goxyz": ("go-xyz", "xyz"), "dotted": ("a.b.c", "abc"),
 }
+# fourteen packages with one name (client-go style api/<group>/v1 trees): more than a single-digit alias counter can number
+MANY_SAME = ["s%02d" % k for k in range(14)]
+FOREIGN.update({k: ("grp%s/v1" % k[1:], "v1") for k in MANY_SAME})
 STD = {"io": "io", "context": "context", "nethttp": "net/http", "time": "time", "unsafe": "unsafe", "sort": "sort", "stdfmt": "fmt", "os": "os"}
 # qualifiers used in the source files (explicit aliases, so two packages named `model` can coexist)
 Q = {k: "q_" + k for k in FOREIGN}
@@ -404,6 +407,7 @@ def catalogue(g):
     # unnamed parameters of alias types named like a builtin that the generated bodies call, with a signature the call would also fit: a derived
     # parameter name `panic` compiles and silently takes the builtin's place
     add("shape.alias-func-named-like-builtin", ["OnPanic(Panic) int", "P2(Panic)", "P3(int, Panic) error", "Rec(Recover) any", "Pr(Print, ...any)"])
+    add("shape.many-same-named-packages", ["G%s(xs ...%s.T) %s.E" % (k[1:], Q[k], Q[k]) for k in MANY_SAME])
     # declarations around the interface that must not disturb its mock
     add("decl.alias-of-own-generic-inst", ["Get(k string) (T, error)", "Put(v T)"], tparams="[T any]", targs=[["int"], ["string"]],
         extra_decls=["type {NAME}IntAlias = {NAME}[int]", "type {NAME}StrDefined {NAME}[string]"])
